@@ -50,6 +50,9 @@ def check_one(ctx, m, vec, channel):
         data = p.frame.marshal(obj, channel)
         ctx.calls(2)
     except Exception as exc:  # noqa
+        if corpus.beyond_domain(vec):
+            ctx.outcome('refused-beyond-depth-32')
+            return
         ctx.outcome('encode-raised')
         ctx.violation(fp, '{} refused a spec-valid argument vector {}: '
                       '{!r}'.format(m.name, short(list(vec), 300), exc),
